@@ -7,7 +7,7 @@ The requirement of each role is justified by the machine-checked pattern theorem
                                               transfer rules of `RA.disciplined_race_free`
   counterSub / acqFence / guardLoad         — `RA.RC.rc_race_free` (release on every decrement, acquire by
                                               whoever concludes it is the last holder)
-  lockAcq / lockRel / lockBoth / pushTokenCas — the same transfer rules with the protected data as the share
+  lockAcq / lockRel / lockBoth / pushTokenCas — `RA.Lock.lock_race_free` (critical sections ordered)
 -/
 import YaclibModel.Base.Order
 
